@@ -29,8 +29,10 @@ Notation rec_of := (rec_of fault issub).
 Notation hseq := (hseq fault issub).
 Notation hops := (hops fault issub).
 
+Definition hrec_at (l : lvl) := hrec_of (ln l).
+Definition rec_at (l : lvl) := rec_of (tfuel l).
 Definition simr (e : hexpr) (r : result) : Prop :=
-  forall fuel s s' t, eqU s s' -> rel (heval1 (hrec_of fuel) e s t) (run (rec_of fuel) r s' t).
+  forall fuel s s' t, eqU s s' -> rel (heval1 (hrec_at fuel) e s t) (run (rec_at fuel) r s' t).
 Definition sim (e : hexpr) : Prop :=
   forall c r c', compile e c = (r, c') -> snd c' = false -> simr e r.
 Definition mono (e : hexpr) : Prop :=
@@ -67,8 +69,8 @@ Lemma cbranch_sim es : Forall sim es -> Forall mono es ->
   snd c = false /\
   exists tail, rs r = pre ++ tail /\
     forall fuel s s' t, eqU s s' ->
-      rel (bindV (heval1 (hrec_of fuel) lsrc s t) (fun v s1 t1 => hseq (hrec_of fuel) es v s1 t1))
-          (runb (rec_of fuel) tail (force r) s' t).
+      rel (bindV (heval1 (hrec_at fuel) lsrc s t) (fun v s1 t1 => hseq (hrec_at fuel) es v s1 t1))
+          (runb (rec_at fuel) tail (force r) s' t).
 Proof.
   intros Hsim Hmono. induction es as [|x es IH]; intros lsrc l pre c r c' Hc Hfl Hl.
   - cbn [cbranch] in Hc. inversion Hc; subst. split; [exact Hfl|]. exists (rs l). split; [reflexivity|].
@@ -168,23 +170,23 @@ Qed.
 
 Definition simQ (e0 : hexpr) (pes : list hexpr) (pl : list pstmt) (P : pexpr) : Prop :=
   forall fuel s s' t, eqU s s' ->
-    rel (bindV (heval1 (hrec_of fuel) e0 s t) (fun v s1 t1 => hops (hrec_of fuel) isand pes v s1 t1))
-        (runb (rec_of fuel) pl P s' t).
+    rel (bindV (heval1 (hrec_at fuel) e0 s t) (fun v s1 t1 => hops (hrec_at fuel) isand pes v s1 t1))
+        (runb (rec_at fuel) pl P s' t).
 
 Lemma simQ_pure e0 pes pl first rest x rx :
   simQ e0 pes pl (mkbool isand first rest) -> simr x rx -> rs rx = [] ->
   simQ e0 (pes ++ [x]) pl (mkbool isand first (rest ++ [force rx])).
 Proof.
   intros HQ Hx Hp fuel s s' t Hs.
-  rewrite (bindV_ext _ (fun v s1 t1 => hops (hrec_of fuel) isand (pes ++ [x]) v s1 t1)
-                       (fun v s1 t1 => bindV (hops (hrec_of fuel) isand pes v s1 t1) (kx (hrec_of fuel) x)))
+  rewrite (bindV_ext _ (fun v s1 t1 => hops (hrec_at fuel) isand (pes ++ [x]) v s1 t1)
+                       (fun v s1 t1 => bindV (hops (hrec_at fuel) isand pes v s1 t1) (kx (hrec_at fuel) x)))
     by (intros; apply hops_snoc).
   rewrite <- bindV_assoc. unfold runb.
   rewrite (thenS_ext _ _ (fun s1 t1 => bindV (ofE (peval (mkbool isand first rest) s1 t1)) (ke (force rx))))
     by (intros; apply mkbool_snoc).
   rewrite thenS_bindV. apply rel_bindV; [apply HQ; exact Hs|].
   intros v s1 s1' t1 Hs1. unfold kx, ke. destruct (Bool.eqb (truthy v) isand); [|apply rel_mk; exact Hs1].
-  rewrite <- (run_pure fault issub (rec_of fuel) rx s1' t1 Hp). apply Hx. exact Hs1.
+  rewrite <- (run_pure fault issub (rec_at fuel) rx s1' t1 Hp). apply Hx. exact Hs1.
 Qed.
 
 Lemma simQ_pures es ops : Forall2 simr es ops -> Forall (fun r => rs r = []) ops ->
@@ -211,21 +213,21 @@ Qed.
 Lemma build_sim n es ops : Forall2 simr es ops ->
   forall e0 pes pl first rest, simQ e0 pes pl (mkbool isand first rest) ->
   forall fuel s s' t, eqU s s' ->
-    rel (bindV (bindV (heval1 (hrec_of fuel) e0 s t) (fun v s1 t1 => hops (hrec_of fuel) isand pes v s1 t1))
-               (fun acc s1 t1 => hops (hrec_of fuel) isand es acc s1 t1))
-        (thenS (prun1 (rec_of fuel) (pl ++ build isand (T n) first rest ops) s' t)
+    rel (bindV (bindV (heval1 (hrec_at fuel) e0 s t) (fun v s1 t1 => hops (hrec_at fuel) isand pes v s1 t1))
+               (fun acc s1 t1 => hops (hrec_at fuel) isand es acc s1 t1))
+        (thenS (prun1 (rec_at fuel) (pl ++ build isand (T n) first rest ops) s' t)
                (fun s1 t1 => ofE (peval (PName (T n)) s1 t1))).
 Proof.
   intros F2. induction F2 as [|x r es ops Hx _ IH]; intros e0 pes pl first rest HQ fuel s s' t Hs.
   - cbn [build].
-    rewrite (then_assign fault issub (rec_of fuel) (R pl (Some (mkbool isand first rest)) []) (T n) []).
+    rewrite (then_assign fault issub (rec_at fuel) (R pl (Some (mkbool isand first rest)) []) (T n) []).
     apply rel_bindV; [apply HQ; exact Hs|]. intros a s1 s1' t1 Hs1.
     cbn [HyFacts.hops prun1 thenS ofE PySem.peval of_e]. unfold upd at 1. rewrite ident_eqb_refl.
     apply rel_mk. apply eqU_updT. exact Hs1.
   - cbn [build]. destruct (rs r) as [|st l] eqn:Er.
     + rewrite hall_step. apply IH; [|exact Hs]. apply simQ_pure; assumption.
     + rewrite <- Er.
-      rewrite (then_assign fault issub (rec_of fuel) (R pl (Some (mkbool isand first rest)) []) (T n)).
+      rewrite (then_assign fault issub (rec_at fuel) (R pl (Some (mkbool isand first rest)) []) (T n)).
       apply rel_bindV; [apply HQ; exact Hs|]. intros a s1 s1' t1 Hs1.
       assert (Hc : peval (cond_of isand (T n)) (upd s1' (T n) a) t1
                    = (EV (if isand then a else VBool (negb (truthy a))), upd s1' (T n) a, t1)).
@@ -398,9 +400,9 @@ Proof.
   rewrite heval1_if.
   assert (Hstmt : r = R (rs rc ++ [SIf (force rc) (rs ra ++ [SAssign (tmp (bump c3)) (force ra)]) (rs rb ++ [SAssign (tmp (bump c3)) (force rb)])])
                        (Some (PName (tmp (bump c3)))) [(tmp (bump c3), true)] ->
-          rel (bindV (heval1 (hrec_of fuel) cnd s t)
-                 (fun v s1 t1 => if truthy v then heval1 (hrec_of fuel) a s1 t1 else heval1 (hrec_of fuel) b s1 t1))
-              (run (rec_of fuel) r s' t)).
+          rel (bindV (heval1 (hrec_at fuel) cnd s t)
+                 (fun v s1 t1 => if truthy v then heval1 (hrec_at fuel) a s1 t1 else heval1 (hrec_at fuel) b s1 t1))
+              (run (rec_at fuel) r s' t)).
   { intros ->. unfold Sim.run. cbn [rs force re]. rewrite then_if.
     apply rel_bindV; [apply Hrc; exact Hs|]. intros v s1 s1' t1 Hs1.
     destruct (truthy v).
@@ -411,8 +413,8 @@ Proof.
   destruct (rs ra) eqn:Era; [destruct (rs rb) eqn:Erb|]; inversion Hc; subst; try (apply Hstmt; reflexivity).
   rewrite run_ifexp. apply rel_bindV; [apply Hrc; exact Hs|]. intros v s1 s1' t1 Hs1.
   destruct (truthy v).
-  - rewrite <- (run_pure fault issub (rec_of fuel) ra s1' t1 Era). apply Hra. exact Hs1.
-  - rewrite <- (run_pure fault issub (rec_of fuel) rb s1' t1 Erb). apply Hrb. exact Hs1.
+  - rewrite <- (run_pure fault issub (rec_at fuel) ra s1' t1 Era). apply Hra. exact Hs1.
+  - rewrite <- (run_pure fault issub (rec_at fuel) rb s1' t1 Erb). apply Hrb. exact Hs1.
 Qed.
 
 Lemma sim_bool isand es : Forall sim es -> Forall mono es -> sim (HBool isand es).
